@@ -80,7 +80,7 @@ def edge_sets(tier):
 
 def space(tier):
     return {"frames": FRAMES, "maps": len(edge_sets(tier)), "shape_nodes": SHAPE, "query_grid": [QY, QX], "radii_units": RADII,
-            "max_elmt": [None, 1, 2], "backends": ["InMemMap (no index)", "SqliteMap"], "location_forms": ["pair", "triple"]}
+            "max_elmt": [None, 1, 2], "backends": ["InMemMap (no index)", "SqliteMap (bulk inserts)", "SqliteMap (single inserts)"], "location_forms": ["pair", "triple"]}
 
 
 def cases(tier):
@@ -111,12 +111,15 @@ def run_case(case):
     graph = {i: (nodes[i], [b for a, b in es if a == i]) for i in nodes}
     tol = 0.05 if latlon else 1e-9 * unit * 30 + 4 * math.ulp(max(max(abs(c) for c in p) for p in nodes.values()))
     ptol = 0.25 if latlon else tol
-    backends = case.get("backends", ["inmem", "sqlite"])
+    backends = case.get("backends", ["inmem", "sqlite", "sqlite-single-inserts"])
     mps = {}
     if "inmem" in backends:
         mps["inmem"] = maps.inmem(graph, use_latlon=latlon)
     if "sqlite" in backends:
         mps["sqlite"] = maps.sqlite(graph, use_latlon=latlon)
+    if "sqlite-single-inserts" in backends:
+        # the same content through add_node / add_edge (per-row index maintenance) instead of the bulk path
+        mps["sqlite-single-inserts"] = maps.sqlite(graph, use_latlon=latlon, name="s1", bulk=False)
     queries = case.get("queries") or [(y, x) for y in QY for x in QX]
     radii = case.get("radii") or RADII
     forms = case.get("forms") or ["pair", "triple"]
